@@ -204,7 +204,7 @@ def check_roundtrip(env: Env, ty):
         _, leaf = skeleton(ty)
         _, bl = skeleton(env.enc(back))
         tl = skeleton(env.enc(t))[1]
-        kind = "shape" if tl[2] != bl[2] else "nesting"
+        kind = "shape" if tl[2] != bl[2] else "other"
         if tl[1] != bl[1]:
             cls = env.classes[tl[1]].__name__ if 0 <= tl[1] < len(env.classes) else "?"
             kind = f"elem-class:{cls}"
@@ -674,6 +674,11 @@ def run(ck: core.Check):
 def replay(ck: core.Check, doc) -> bool:
     from translator import dtypes
 
+    if doc.get("kind") == "obligation":  # a broken theorem / correspondence: re-run them
+        run(ck)
+        for b in ck.broken_items:
+            print(f"still broken: {b['kind']} {b['name']}")
+        return bool(ck.broken_items or ck.failures)
     env = Env(dtypes.tabulate())
     case = doc["case"]
     bad = CHECKS[case["check"]](env, case)
